@@ -498,6 +498,9 @@ class Frame:
     def counts(self) -> Tuple[int, int]:
         n = len(self.chunks)
         m = self.count_mode
+        if isinstance(m, (tuple, list)) and m[0] == "new":
+            # the new field carries the (current) count, the old field holds the given value
+            return int(m[1]), n
         if isinstance(m, (tuple, list)):
             return int(m[0]), int(m[1])
         if m == "both":
